@@ -35,7 +35,7 @@ REQUIRED = {'cascading_watcher_programs': 50, 'faulted_runs': 2000, 'faults_fire
             'fault_watcher': 300, 'fault_updatekey': 300, 'fault_body': 300, 'failed_constructors': 10}
 
 _st = {}
-NAMES = ['a', 'b', 'c']
+NAMES = ['a', 'b', 'c', 's']      # s is declared per_instance=False: its Parameter object is shared with the class
 
 
 def setup(P):
@@ -58,6 +58,7 @@ def tok():
 def make_class(param, idx):
     return type(f'F{idx}', (param.Parameterized,), dict(
         a=param.Parameter(default=('v', 'a0')), b=param.Parameter(default=('v', 'b0')), c=param.Parameter(default=('v', 'c0')),
+        s=param.Parameter(default=('v', 's0'), per_instance=False),
         n=param.Number(default=1, bounds=(0, 10)), e=param.Event(), k=param.Parameter(default='K', constant=True)))
 
 
@@ -76,7 +77,7 @@ def gen_prog(rng, depth=0):
         elif c < 0.7:
             ops.append(('discard', gen_prog(rng, depth + 1)))
         elif c < 0.78:
-            ops.append(('editconst', gen_prog(rng, depth + 1)))
+            ops.append(('editconst', gen_prog(rng, depth + 1), rng.random() < 0.5))
         elif c < 0.86:
             keys = rng.sample(NAMES, rng.randint(1, 2))
             ops.append(('updatectx', [(k, tok()) for k in keys], gen_prog(rng, depth + 1)))
@@ -175,10 +176,10 @@ class Exec:
                 return f
         return None
 
-    def run_ops(self, prog, path=()):
+    def run_ops(self, prog, path=(), start=0):
         P = self.P
         o = self.o
-        for i, op in enumerate(prog):
+        for i, op in enumerate(prog, start):
             p = path + (i,)
             k = op[0]
             if k == 'set':
@@ -217,9 +218,21 @@ class Exec:
                 self.depth_nesting += 1
                 try:
                     with cm(o):
-                        self.run_ops(op[1], p)
+                        if k == 'editconst' and len(op) > 2 and op[2]:
+                            # the body deals with the failure of one of its steps itself and carries on: the block is still open
+                            for j, sub in enumerate(op[1]):
+                                try:
+                                    self.run_ops([sub], p, start=j)
+                                except (Boom, ValueError, TypeError, KeyError):
+                                    self.guarded_failures = getattr(self, 'guarded_failures', 0) + 1
+                        else:
+                            self.run_ops(op[1], p)
                         if k == 'editconst':
-                            o.k = tok()
+                            try:
+                                o.k = tok()
+                            except TypeError as e:
+                                self.locked_inside_block = str(e)
+                                raise
                         fb = self.fault_for('body', p)
                         if fb is not None:
                             self.fired.append(fb)
@@ -354,7 +367,7 @@ def run_case(idx, rng, P, rep):
     for _ in range(nw):
         names = rng.sample(NAMES + ['n', 'e'], rng.randint(1, 3))
         ws = dict(names=names, onlychanged=rng.random() < 0.6, queued=rng.random() < 0.25, precedence=rng.choice([0, 0, 1, 2]))
-        order = ['e', 'a', 'b', 'c', 'n']
+        order = ['e', 'a', 'b', 's', 'c', 'n']
         later = order[max(order.index(x) for x in names) + 1:]
         if later and rng.random() < 0.4:
             # a callback that itself assigns (acyclic by construction: only to parameters later in the order)
@@ -423,6 +436,9 @@ def run_case(idx, rng, P, rep):
                 rep.count('faults_fired', len(ex.fired))
                 for f in ex.fired:
                     rep.count('fault_' + f[0])
+            if getattr(ex, 'locked_inside_block', None):
+                viol('constant-locked-inside-open-edit_constant', f'inside an open edit_constant block (after a nested step had failed or a '
+                     f'nested block had exited) the constant could not be set: {ex.locked_inside_block}')
             if ex.late and not in_batch:
                 (i, opk, wid, name, val) = ex.late[0]
                 viol('late-announcement', f'during top-level op {i} ({opk}) watcher {wid} received an event for {name}={val!r} that belongs '
